@@ -1,5 +1,5 @@
 /-
-  C11 — MIXED BLOCKS: the exact guard under which a whole block with ANY interleaving of transfers, votes, re-votes,
+  C11 — MIXED BLOCKS: a SUFFICIENT guard (tight clause by clause, not necessary: `guard_not_necessary`) under which a whole block with ANY interleaving of transfers, votes, re-votes,
   registrations, top-ups, unregistrations, signer changes, reimbursed txs, boxes and failing candidates — at every height,
   reward blocks included — keeps the vote tally of candidate `x`.
 
@@ -12,7 +12,11 @@
   * `mixed_block_keeps_tally_partial`  — guardX ⇒ the block keeps `TallyInv` (any pre-state, any candidate list, any height)
   * `mixed_history_keeps_tally_partial` — induction over histories of such blocks
   * `mixed_block_keeps_registered_tally` — the same in the words of `transfer_block_keeps_tally`
-  * `guard_holds_for_typical` / `guard_holds_for_fresh_voters` — readable sufficient conditions
+  * `guard_holds_for_typical` / `guard_holds_for_fresh_voters` — readable sufficient conditions for the VOTE clause; both keep
+    the refund clause as a hypothesis on the executed post-tx state; `guard_holds_for_fresh_list` replaces it by a condition
+    on the context alone (not a reward block, or `x` not on the refund list): nothing is executed to check it
+  * no theorem here assumes `0 < voteRate` except the sufficient conditions: at rate 0 the model's `x / 0 = 0` makes the
+    guard hold where Go divides by zero; the rate is pinned to 200 LEMO by the driver's `rate` op
   * tightness (kernel-checked): `guard_vote_clause_tight_new`, `guard_vote_clause_tight_old`, `guard_vote_clause_tight_fall`,
     `guard_refund_clause_tight` — for each clause a block on which ONLY that clause fails and the tally breaks.
   The full statement (no guard) stays refuted: `LemoProofs.C11.tally_refuted`, `negative_votes_refuted`.
@@ -330,7 +334,9 @@ theorem fresh_untouched_aux (c : Ctx) (s0 : St) (V : List Nat) : ∀ (txs : List
           rw [applySimple_bal_other c s s1 gp gp1 g1 t ha a hp hb]
           exact hinv a hn2
 
-/-- **guard_holds_for_fresh_voters**: a condition on the candidate LIST alone (nothing is executed to check it): no boxes,
+/-- **guard_holds_for_fresh_voters**: the VOTE clause from a condition on the candidate LIST alone (nothing is executed to
+    check `freshVoters`; the refund clause `hr` is still a hypothesis on the executed post-tx state — see
+    `guard_holds_for_fresh_list` for the form without it): no boxes,
     and the sender of every vote tx is an account of the universe with a non-negative balance that no EARLIER candidate of
     the list — included or discarded — names as sender, gas payer or transfer recipient, and that is not the deposit pool
     once any candidate precedes it.  Then the voters are untouched, and (with the refund clause) the guard holds for every
@@ -340,6 +346,26 @@ theorem guard_holds_for_fresh_voters (c : Ctx) (hR : 0 < c.p.voteRate) (s : St) 
     guardX c s gp txs V x = true :=
   guard_holds_for_typical c hR s gp txs V x
     (fresh_untouched_aux c s V txs s gp [] hf (fun _ _ => rfl)) hr
+
+/-- the refund clause from the context alone: the block is not a reward block, or `x` is not on its refund list -/
+theorem refundClause_of_not_listed (c : Ctx) (st : St) (x : Nat)
+    (h : isRewardBlock c = false ∨ x ∉ c.rf.refunds) : refundClause c st x = true := by
+  unfold refundClause
+  rcases h with h | h
+  · rw [h]; rfl
+  · have hc : c.rf.refunds.contains x = false := by
+      cases hcx : c.rf.refunds.contains x with
+      | false => rfl
+      | true => exact absurd (List.contains_iff_mem.mp hcx) h
+    rw [hc, Bool.and_false, Bool.false_and]; rfl
+
+/-- **guard_holds_for_fresh_list**: the guard for `x` from conditions that need NO execution at all — `freshVoters` on the
+    candidate list and pre-state balances, and `x` not being refunded by this block (not a reward block, or `x` not on the
+    trusted refund list). -/
+theorem guard_holds_for_fresh_list (c : Ctx) (hR : 0 < c.p.voteRate) (s : St) (gp : Nat) (txs : List Tx) (V : List Nat) (x : Nat)
+    (hf : freshVoters c s V [] txs = true) (hl : isRewardBlock c = false ∨ x ∉ c.rf.refunds) :
+    guardX c s gp txs V x = true :=
+  guard_holds_for_fresh_voters c hR s gp txs V x hf (refundClause_of_not_listed c _ x hl)
 
 /-! ### tightness: for each clause of the guard a block on which ONLY that clause fails — and the tally breaks
     (kernel-checked witnesses; rate 200 / 100 and free gas for readability, as in `LemoProofs.C11.tally_refuted`) -/
